@@ -301,6 +301,20 @@ func runScenario(sc Scn) Res {
 		gids[j.Gid] = true
 	}
 	res.Workers = len(gids)
+	if sc.Fault != nil {
+		// under a failing source the judged samples are a subset, but each one must still be a chunk of
+		// consecutive fresh stream bytes (a retry that re-fills the buffer from the wrong offset shows here)
+		want := map[uint64]bool{}
+		for j := 0; (j+1)*w.B <= len(stream); j++ {
+			want[mon.Hash64(stream[j*w.B:(j+1)*w.B])] = true
+		}
+		for k, jd := range js {
+			if !want[jd.Hash] {
+				res.Problems = append(res.Problems, fmt.Sprintf("judged sample #%d (goroutine %d) is not a chunk stream[j*%d:(j+1)*%d] of the source: shifted, stale or partially re-read bytes", k, jd.Gid, w.B, w.B))
+				break
+			}
+		}
+	}
 	if sc.Fault == nil {
 		probs, chunkOf := mon.CheckHistory(js, stream, w.B, w.S, w.Items, !w.Fast)
 		res.Problems = probs
